@@ -1,33 +1,78 @@
 (** Model of ppv-lite86's soft.rs wrappers [x2<W,G>] and [x4<W>]: 256- and
     512-bit vectors as arrays of 2 / 4 narrower vectors, every method applying
-    the one-lane method to each element, as the code does. A value is the list
-    of its elements (element 0 first, which is also the memory order since
-    both wrappers are [repr(transparent)] arrays). *)
+    the one-lane method to each element, as the code does (element 0 first —
+    the order matters only for which call panics first). A value is the list
+    of its elements, element 0 first, which is also the memory order since
+    both wrappers are [repr(transparent)] arrays.
+
+    The file is polymorphic in the element type [W] and in the element
+    methods, so it serves both back ends (portable: [W] = word list,
+    x86: [W] = register image). It depends on [Lib] only. *)
 From Coq Require Import NArith List Bool Arith.
-From CC Require Import Lib.Words Lib.Bytes Lib.ListX Model.Intrinsics.
+From CC Require Import Lib.Words Lib.Bytes Lib.ListX.
 Import ListNotations.
 Local Open Scope N_scope.
 
+(** build profile: overflow checks on ([Debug]) or off ([Release]) *)
+Inductive profile := Debug | Release.
+
+(** outcome of a modelled call: a value, or a Rust panic *)
+Inductive outcome (A : Type) := Ok (a : A) | Panic.
+Arguments Ok {A} a.
+Arguments Panic {A}.
+Definition obind {A B} (o : outcome A) (f : A -> outcome B) : outcome B :=
+  match o with Ok a => f a | Panic => Panic end.
+Definition omapo {A B} (f : A -> B) (o : outcome A) : outcome B :=
+  match o with Ok a => Ok (f a) | Panic => Panic end.
+Definition is_ok {A} (o : outcome A) : bool := match o with Ok _ => true | Panic => false end.
+Notation "'let*' x ':=' e 'in' k" := (obind e (fun x => k))
+  (at level 200, x name, e at level 100, k at level 200, right associativity).
+
+(** [xs[i]] / [xs[i] = v] on an array or slice: out of range panics in every profile *)
+Definition index {A} (xs : list A) (i : N) : outcome A :=
+  if i <? N.of_nat (length xs) then
+    match nth_error xs (N.to_nat i) with Some x => Ok x | None => Panic end
+  else Panic.
+Definition store {A} (xs : list A) (i : N) (v : A) : outcome (list A) :=
+  if i <? N.of_nat (length xs) then Ok (upd (N.to_nat i) v xs) else Panic.
+
 Section Soft.
   Context {W : Type}.
+  (** filler for [self.0[j]] with a literal [j] on a fixed-size array (cannot fail, never returned) *)
+  Variable d : W.
 
-  (** [fwd_unop_x2!]/[fwd_unop_x4!], [Not], [BSwap], [Swap64], [RotateEachWord*], [LaneWords4] *)
-  Definition xn_unop (f : W -> W) (v : list W) : list W := map f v.
-  (** [fwd_binop_x2!]/[fwd_binop_x4!] (and the [*_assign] forms, which update each element) *)
-  Definition xn_binop (f : W -> W -> W) (a b : list W) : list W := map2 f a b.
+  (** [fwd_unop_x2!], [Not], [BSwap], [Swap64], [RotateEachWord*], [LaneWords4] for x2:
+      [x2::new([self.0[0].f(), self.0[1].f()])] *)
+  Definition x2_unop (f : W -> outcome W) (v : list W) : outcome (list W) :=
+    let* a := f (nth 0 v d) in
+    let* b := f (nth 1 v d) in Ok [a; b].
+  (** [fwd_binop_x2!]; the [fwd_binop_assign_x2!] forms update element 0 then element 1 with
+      the element's own assign method — the same two calls in the same order *)
+  Definition x2_binop (f : W -> W -> outcome W) (v r : list W) : outcome (list W) :=
+    let* a := f (nth 0 v d) (nth 0 r d) in
+    let* b := f (nth 1 v d) (nth 1 r d) in Ok [a; b].
+  (** [fwd_unop_x4!] etc. *)
+  Definition x4_unop (f : W -> outcome W) (v : list W) : outcome (list W) :=
+    let* a := f (nth 0 v d) in
+    let* b := f (nth 1 v d) in
+    let* c := f (nth 2 v d) in
+    let* e := f (nth 3 v d) in Ok [a; b; c; e].
+  Definition x4_binop (f : W -> W -> outcome W) (v r : list W) : outcome (list W) :=
+    let* a := f (nth 0 v d) (nth 0 r d) in
+    let* b := f (nth 1 v d) (nth 1 r d) in
+    let* c := f (nth 2 v d) (nth 2 r d) in
+    let* e := f (nth 3 v d) (nth 3 r d) in Ok [a; b; c; e].
 
-  (** [Vec2]/[Vec4]: [self.0[i as usize]] — an index past the array panics *)
-  Definition xn_extract (v : list W) (i : N) : outcome W :=
-    match nth_error v (N.to_nat i) with Some w => Ok w | None => Panic end.
-  Definition xn_insert (v : list W) (w : W) (i : N) : outcome (list W) :=
-    if (N.to_nat i <? length v)%nat then Ok (upd (N.to_nat i) w v) else Panic.
+  (** [Vec2]/[Vec4]: [self.0[i as usize]], [self.0[i as usize] = w] *)
+  Definition xn_extract (v : list W) (i : N) : outcome W := index v i.
+  Definition xn_insert (v : list W) (w : W) (i : N) : outcome (list W) := store v i w.
 
-  (** [MultiLane<[W; n]>], [UnsafeFrom<[W; n]>] *)
+  (** [MultiLane<[W; n]>], [UnsafeFrom<[W; n]>], [x2::new], [x4::new] *)
   Definition xn_to_lanes (v : list W) : list W := v.
   Definition xn_from_lanes (l : list W) : list W := l.
 
   (** [Vec4Ext::transpose4] for [x4<W>] *)
-  Definition x4_transpose4 (d : W) (a b c e : list W) : list W * list W * list W * list W :=
+  Definition x4_transpose4 (a b c e : list W) : list W * list W * list W * list W :=
     ([nth 0 a d; nth 0 b d; nth 0 c d; nth 0 e d],
      [nth 1 a d; nth 1 b d; nth 1 c d; nth 1 e d],
      [nth 2 a d; nth 2 b d; nth 2 c d; nth 2 e d],
@@ -36,39 +81,49 @@ Section Soft.
   (** [StoreBytes for x2]: the slice is split at [len / 2] *)
   Definition x2_read (rd : list N -> outcome W) (bs : list N) : outcome (list W) :=
     let h := Nat.div (length bs) 2 in
-    obind (rd (firstn h bs)) (fun a =>
-    obind (rd (skipn h bs)) (fun b => Ok [a; b])).
-  Definition x2_write (wr : W -> nat -> outcome (list N)) (d : W) (v : list W) (outlen : nat)
+    let* a := rd (firstn h bs) in
+    let* b := rd (skipn h bs) in Ok [a; b].
+  (** writes: [wr w n] = the [n] bytes the element writes into a slice of length [n] (or panic) *)
+  Definition x2_write (wr : W -> nat -> outcome (list N)) (v : list W) (outlen : nat)
     : outcome (list N) :=
     let h := Nat.div outlen 2 in
-    obind (wr (nth 0 v d) h) (fun a =>
-    obind (wr (nth 1 v d) (outlen - h)%nat) (fun b => Ok (a ++ b))).
+    let* a := wr (nth 0 v d) h in
+    let* b := wr (nth 1 v d) (outlen - h)%nat in Ok (a ++ b).
   (** [StoreBytes for x4]: [n = len / 4], slices [..n], [n..2n], [2n..3n], [3n..] *)
   Definition x4_read (rd : list N -> outcome W) (bs : list N) : outcome (list W) :=
     let n := Nat.div (length bs) 4 in
-    obind (rd (firstn n bs)) (fun a =>
-    obind (rd (firstn n (skipn n bs))) (fun b =>
-    obind (rd (firstn n (skipn (2 * n) bs))) (fun c =>
-    obind (rd (skipn (3 * n) bs)) (fun e => Ok [a; b; c; e])))).
-  Definition x4_write (wr : W -> nat -> outcome (list N)) (d : W) (v : list W) (outlen : nat)
+    let* a := rd (firstn n bs) in
+    let* b := rd (firstn n (skipn n bs)) in
+    let* c := rd (firstn n (skipn (2 * n) bs)) in
+    let* e := rd (skipn (3 * n) bs) in Ok [a; b; c; e].
+  Definition x4_write (wr : W -> nat -> outcome (list N)) (v : list W) (outlen : nat)
     : outcome (list N) :=
     let n := Nat.div outlen 4 in
-    obind (wr (nth 0 v d) n) (fun a =>
-    obind (wr (nth 1 v d) n) (fun b =>
-    obind (wr (nth 2 v d) n) (fun c =>
-    obind (wr (nth 3 v d) (outlen - 3 * n)%nat) (fun e => Ok (a ++ b ++ c ++ e))))).
-End Soft.
+    let* a := wr (nth 0 v d) n in
+    let* b := wr (nth 1 v d) n in
+    let* c := wr (nth 2 v d) n in
+    let* e := wr (nth 3 v d) (outlen - 3 * n)%nat in Ok (a ++ b ++ c ++ e).
 
-(** storage: [vec256_storage::split128]/[new128] and the 512-bit forms; the
-    union is the concatenation of its 128-bit parts in memory order *)
-Fixpoint split_regs (n : nat) (k : nat) (bs : list N) : list reg :=
-  match n with
-  | O => []
-  | S n' => firstn k bs :: split_regs n' k (skipn k bs)
-  end.
-(** [Store<vec256_storage> for x2<W,G>] / [Store<vec512_storage> for x4<W>] with
-    [W::unpack] the identity on 16 bytes *)
-Definition x2_unpack (st : list N) : list reg := split_regs 2 16 st.
-Definition x4_unpack (st : list N) : list reg := split_regs 4 16 st.
-(** [From<x2<W,G>> for vec256_storage], [From<x4<W>> for vec512_storage] *)
-Definition xn_into_storage (v : list reg) : list N := concat v.
+  (** [Store<vec256_storage> for x2] / [Store<vec512_storage> for x4]: [p] = the result of
+      [split128] (the 2 / 4 128-bit storages in order), [unp] = [W::unpack] *)
+  Context {S : Type}.
+  Variable ds : S.
+  Definition x2_unpack (unp : S -> outcome W) (p : list S) : outcome (list W) :=
+    let* a := unp (nth 0 p ds) in
+    let* b := unp (nth 1 p ds) in Ok [a; b].
+  Definition x4_unpack (unp : S -> outcome W) (p : list S) : outcome (list W) :=
+    let* a := unp (nth 0 p ds) in
+    let* b := unp (nth 1 p ds) in
+    let* c := unp (nth 2 p ds) in
+    let* e := unp (nth 3 p ds) in Ok [a; b; c; e].
+  (** [From<x2<W,G>> for vec256_storage] / [From<x4<W>> for vec512_storage]:
+      [new128([x.0[0].into(), x.0[1].into(), ..])] *)
+  Definition x2_into (into : W -> outcome S) (v : list W) : outcome (list S) :=
+    let* a := into (nth 0 v d) in
+    let* b := into (nth 1 v d) in Ok [a; b].
+  Definition x4_into (into : W -> outcome S) (v : list W) : outcome (list S) :=
+    let* a := into (nth 0 v d) in
+    let* b := into (nth 1 v d) in
+    let* c := into (nth 2 v d) in
+    let* e := into (nth 3 v d) in Ok [a; b; c; e].
+End Soft.
